@@ -1612,3 +1612,22 @@ def _text_outside_root(repo, ob, failure):
 
 
 GENERATORS.insert(0, ("C02.reader.no_text", _text_outside_root))
+
+
+def _group_attrs_once(repo, ob, failure):
+    """an expression in a group attribute is evaluated once: random() advances once per occurrence"""
+    import re as _re
+    a = '<svg><g data-r="{{random()}}"><text text="{{random()}}"/></g><text text="{{random()}}"/></svg>'
+    b = '<svg><text text="{{random()}} {{random()}} {{random()}}"/></svg>'
+    ra, rb = run_svgdx(repo, a, args=("--no-auto-styles", "--seed", "7")), run_svgdx(repo, b, args=("--no-auto-styles", "--seed", "7"))
+    if ra["rc"] != 0 or rb["rc"] != 0:
+        return None
+    seq_b = _re.search(r">([^<]*)</text>", rb["out"]).group(1).split()
+    seq_a = [_re.search(r'data-r="([^"]*)"', ra["out"]).group(1)] + _re.findall(r">([^<]*)</text>", ra["out"])
+    if seq_a != seq_b:
+        return {"input": a, "args": ["--no-auto-styles", "--seed", "7"], "observed": "draws %s" % seq_a, "expected": "the first three draws of the sequence: %s" % seq_b}
+    return None
+
+
+GENERATORS.insert(0, ("C14.group.attributes_evaluated_once", _group_attrs_once))
+GENERATORS.insert(0, ("C15.group.attributes_evaluated_once", _group_attrs_once))
